@@ -439,6 +439,19 @@ pub fn run_case(c: &CaseSpec, stats: &mut Stats, relax_starved_skip: bool) -> Re
 					Fault::Seek(k) => format!("injected seek error at call {}", k),
 					Fault::None => String::new(),
 				};
+				// the dec.error hook fires just before the decoder thread publishes the error: when the sound was Stopped by a command
+				// in the meantime nothing above has waited for the publication. The thread publishes, then ends (its decoder is
+				// dropped): wait for that before judging an empty pop
+				if popped.is_empty() {
+					let mut k = 0;
+					while !obs.dropped.load(Ordering::SeqCst) && k < 4000 {
+						std::thread::sleep(Duration::from_millis(1));
+						k += 1;
+					}
+					if let Some(e) = h.pop_error() {
+						popped.push(e);
+					}
+				}
 				if popped.first() != Some(&want) {
 					return Err(format!("pop_error() returned {:?}, expected the first injected error {:?}", popped, want));
 				}
